@@ -306,10 +306,13 @@ def run(ctx: Ctx):
     traces = []
     if not ctx.replay:
         routes = [('BOS', 'LAX', 1.0), ('SFO', 'ORD', 0.6), ('DEN', 'JFK', 0.9)]
-        jobs = [(m, t, r) for m in (1, 2, 3, 5) for t in (0.2, 1e-2, 1e-3, 1e-6) for r in routes]
+        jobs = [(m, t, r) for m in (1, 2, 3, 5, 8) for t in (0.2, 1e-2, 1e-3, 1e-4, 1e-5, 1e-6) for r in routes]
         if ctx.quick:
-            ctx.rng.shuffle(jobs)
-            jobs = jobs[:20]
+            # tight tolerances with enough iterations to reach them are always flown: a returned trajectory must be within them
+            tight = [j for j in jobs if j[0] >= 5 and j[1] in (1e-4, 1e-5)]
+            rest = [j for j in jobs if j not in tight]
+            ctx.rng.shuffle(rest)
+            jobs = tight + rest[:14]
         for job, (devs, trs) in zip(jobs, pmap(run_massiter, jobs)):
             ctx.case_done({'massiter': job})
             for key, desc in devs:
